@@ -46,7 +46,7 @@ def drive_fixed_pair(a, b, ints=True):
     x + y; x - y; x * y                           # noqa
     x == y; x != y; x < y; x <= y; x > y; x >= y  # noqa
     Fixed.mul(x, y, round='down'); Fixed.mul(x, y, round='up')
-    Fixed.min([x, y]); Fixed.min([y, x, x])
+    Fixed.min([x, y]); Fixed.min([y, x, x]); Fixed.min([y, x])
     if b != 0:
         x / y; x // y; x.__div__(y)               # noqa
         Fixed.div(x, y, round='down'); Fixed.div(x, y, round='up')
@@ -76,6 +76,14 @@ def drive_rational(rng, big):
         m = 10 ** rng.randint(1, 40) if big else 60
         return Rational(rng.randint(-m, m), rng.randint(1, m))
     a, b, c = rr(), rr(), rr()
+    k = rng.random()
+    if k < 0.25:
+        # operands a hair apart (closer than a double can tell), or both beyond the range of a double: exactness must not depend on size
+        base = Rational(a) * rng.choice([1, 1, 10 ** 17, 10 ** 330, Rational(1, 10 ** 330)])
+        eps = Rational(rng.choice([1, -1]), 10 ** rng.randint(17, 90)) * (abs(base) if base != 0 else 1)
+        a, b, c = base, Rational(base + eps), Rational(base - eps * rng.choice([0, 1, 2]))
+        if rng.random() < 0.5:
+            a, b = b, a
     A = a if isinstance(a, Rational) else Rational(a)
     for op in ('+', '-', '*', '/', '//', '%'):
         try:
@@ -95,7 +103,8 @@ def drive_rational(rng, big):
         Rational.div(A, B, round='up'); Rational.muldiv(A, B, C, round='down')
     except ZeroDivisionError:
         pass
-    Rational.min([A, B, C])
+    Rational.min([A, B, C]); Rational.min([C, B, A]); Rational.min([B, A])
+    A == B; A != B; A < B; A <= B; A > B; A >= B; B < C; A == C  # noqa
 
 
 def shard(ctx):
@@ -136,11 +145,17 @@ def shard(ctx):
                 mag = 10 ** rng.randint(0, 40)
                 a, b, c = (rng.randint(-mag, mag) for _ in range(3))
                 if rng.random() < 0.2:
-                    b = rng.choice([0, 1, -1, 10 ** p, -10 ** p, a, -a])
-                drive_fixed_pair(a, b, ints=rng.random() < 0.5)
-                drive_fixed_triple(a, b, c)
+                    b = rng.choice([0, 1, -1, 10 ** p, -10 ** p, a, -a, a + 1, a - 1, a + 1, -a + 1])
+                try:
+                    drive_fixed_pair(a, b, ints=rng.random() < 0.5)
+                    drive_fixed_triple(a, b, c)
+                except Exception as e:      # pylint: disable=broad-except
+                    rec.fail('fixed:operation-raised:' + type(e).__name__, 'operands %s %s %s at precision %s: %r' % (a, b, c, p, e))
             for _ in range(10):
-                drive_rational(rng, rng.random() < 0.7)
+                try:
+                    drive_rational(rng, rng.random() < 0.7)
+                except Exception as e:      # pylint: disable=broad-except
+                    rec.fail('rational:operation-raised:' + type(e).__name__, repr(e)[:300])
             ctx.evaluated(30)
         # ---- (iii) contracts left installed during real counts
         before = rec.total()
@@ -200,7 +215,10 @@ def replay(case):
             for a, b, c in itertools.product(range(-6, 7), repeat=3):
                 drive_fixed_triple(a, b, c)
         for _ in range(2000):
-            drive_rational(rng, True)
+            try:
+                drive_rational(rng, True)
+            except Exception as e:      # pylint: disable=broad-except
+                rec.fail('rational:operation-raised:' + type(e).__name__, repr(e)[:300])
     finally:
         rm1()
         rm2()
